@@ -60,14 +60,20 @@ def flight_family(quick, thorough, search):
             "components": FLIGHT_COMPONENTS}
 
 
-WAKEUP_FAMILY = {"quick": 8, "thorough": 8, "search": 8, "runner": "test", "test": "TestWakeup", "timeout_s": 40,
-                 "env": {"GODEBUG": "asyncpreemptoff=1", "GOMAXPROCS": "1"}, "components": ["mismatch", "monitor:C01+C20"]}
+WAKEUP_FAMILY = {"quick": 12, "thorough": 12, "search": 12, "runner": "test", "test": "TestWakeup", "timeout_s": 60,
+                 "env": {"GODEBUG": "asyncpreemptoff=1", "GOMAXPROCS": "1"},
+                 "components": ["mismatch", "monitor:C01+C20", "monitor:C04+C20", "monitor:C02+C20"]}
+CHOREO_FAMILY = {"quick": 21, "thorough": 90, "search": 45, "runner": "test", "test": "TestChoreo", "timeout_s": 60,
+                 "env": {"GODEBUG": "asyncpreemptoff=1", "GOMAXPROCS": "1"},
+                 "components": ["mismatch", "monitor:C01+C20", "monitor:C02+C20", "monitor:C18+C20"]}
 
 
 def sig_flight(rec):
     case = rec.get("case") or {}
     if rec.get("source", "").startswith("harness:hang"):
         return "flight:hang " + json_short(case.get("ops_so_far"))
+    if case.get("family") == "choreo" or "after_queue_drained" in case:
+        return "choreo:%s:%s:%s" % (case.get("kind"), case.get("queue"), case.get("requests"))
     if "waiters" in case:
         return "wakeup:waiter-returns-fetching" if rec.get("source", "").endswith("monitor") or rec.get("source") == "harness" else "wakeup:mismatch"
     return "flight:" + json_short([f.get("op") for f in (case.get("frames") or [])[:12]])
@@ -81,14 +87,16 @@ def json_short(x):
 SYS_TRUST = [
     "model coq/Model/Sys.v is hand-written from cache/http_cache.go (Get/get/HitForPass/Cacheable/Age/initFromStore/saveToStore), server/cache.go (middleware incl. deferred HitForPass) and the dispatcher lookup/purge; one key per model instance, eviction/purge/restart/store loss as environment labels",
     "critical sections without blocking operations are atomic steps (sync.RWMutex gives mutual exclusion; the lock/field-access skeleton regenerated from the source is checked under C20)",
-    "tied to the code by the flight family (real middleware + dispatcher + fake store under testing/synctest, observation of every request at quiescence after every op) and the wakeup family (choreographed wake-up/expiry window under GOMAXPROCS=1)",
+    "tied to the code by the flight family (real middleware + dispatcher + fake store under testing/synctest, observation of every request at quiescence after every op) the wakeup family (choreographed wake-up/expiry window under GOMAXPROCS=1) and the choreo family (critical sections of the entry / shard lock forced into a chosen order through sync.Mutex's starvation-mode hand-off, every operation descheduled right after its Unlock; purge held inside store.Delete)",
     "Go runtime: channel rendezvous, deferred calls run on error return and panic, testing/synctest's fake clock and quiescence detection",
 ]
 
-def sys_prop(assumptions, explanation, with_wakeup=False, quick=120):
+def sys_prop(assumptions, explanation, with_wakeup=False, quick=120, with_choreo=False):
     fams = {"flight": flight_family(quick, 1500, 300)}
     if with_wakeup:
         fams["wakeup"] = WAKEUP_FAMILY
+    if with_choreo:
+        fams["choreo"] = CHOREO_FAMILY
     return {"families": fams, "signature": sig_flight, "trusted_base": SYS_TRUST,
             "assumptions": assumptions, "explanation": explanation}
 
@@ -167,7 +175,7 @@ PROPS = {
         "explanation": "next_healthy / none_iff for all policies and status vectors; round-robin evenness by a closed form for residue counts; health rule.",
     },
     "C20": {
-        "families": {"flight": flight_family(120, 1500, 300), "wakeup": WAKEUP_FAMILY,
+        "families": {"flight": flight_family(120, 1500, 300), "wakeup": WAKEUP_FAMILY, "choreo": CHOREO_FAMILY,
                      "negotiate": {"quick": 300, "thorough": 8000, "search": 3000, "components": NEGOTIATE_COMPONENTS},
                      "racestress": {"quick": 0, "thorough": 2500, "search": 700, "runner": "test", "test": "TestRaceStress", "race": True,
                                     "no_cases": True, "only": ["thorough", "search"], "search_first": True, "timeout_s": 400}},
@@ -183,7 +191,7 @@ PROPS = {
     },
     "C04": sys_prop(["whole-second clock granularity (the code reads time.Now().Unix()); the store is not forged (lost / truncated / invalid records are allowed)",
                      "Age() is a second lock acquisition after Get(): the cross-epoch case is exhibited in the model and labelled partial"],
-                    "hit_is_installed_and_fresh via the provenance invariant; hits do not extend; refetch after expiry; Age value."),
+                    "hit_is_installed_and_fresh via the provenance invariant; hits do not extend; refetch after expiry; Age value.", with_wakeup=True),
     "C07": sys_prop(["hit-for-pass period in whole seconds as converted by cache.convertConfigs"],
                     "step-level theorems: marks, immediate pass without queueing, own answer, lapse; three simultaneous passes exhibited."),
     "C08": sys_prop(["store Set/Get/Delete are atomic per key and Get returns the last successful Set or not-found (badger transactions: trusted); process start-up and badger recovery are runtime behaviour outside the model",
@@ -192,11 +200,11 @@ PROPS = {
     "C10": sys_prop(["store calls return (possibly with an error): a call that never returns is a hang of the store client, not modelled"],
                     "C01/C02 theorems hold for all store choices; no immortal/empty hit; bad record = miss; memory hits need no store."),
     "C18": sys_prop(["a purge issued while a fetch is in flight does not cancel it: its result may be stored afterwards (stated caveat)"],
-                    "purge_effective, next request refetches, absent-key no-op, never strands (measure unchanged, progress), other keys untouched (dispatcher frame)."),
+                    "purge_effective, next request refetches, absent-key no-op, never strands (measure unchanged, progress), other keys untouched (dispatcher frame).", with_choreo=True),
     "C02": sys_prop(["every upstream exchange eventually ends (the proxy timeout turns silence into a 504): upstream steps are always-enabled environment steps"],
-                    "no_deadlock + strictly decreasing well-founded measure + final_clean over all label sequences."),
+                    "no_deadlock + strictly decreasing well-founded measure + final_clean over all label sequences.", with_wakeup=True, with_choreo=True),
     "C01": {
-        "families": {"flight": flight_family(120, 1500, 300), "wakeup": WAKEUP_FAMILY},
+        "families": {"flight": flight_family(120, 1500, 300), "wakeup": WAKEUP_FAMILY, "choreo": CHOREO_FAMILY},
         "signature": sig_flight,
         "trusted_base": SYS_TRUST,
         "assumptions": ["the key's entry is not evicted/purged during the fetch (the property's own proviso) for the per-key reading"],
